@@ -340,7 +340,90 @@ def gen_c11(rng: random.Random, tier: str) -> dict:
     }
 
 
+# ------------------------------------------------------------- C01-C03
+def compile_policy(rng: random.Random) -> dict:
+    pol = {'kind': rng.choice(['uniform', 'sticky', 'sticky']),
+           'p_stick': rng.choice([0.8, 0.95]),
+           'w_deliver': rng.choice([0.3, 1.0, 3.0])}
+    if rng.random() < 0.35:
+        pol['preempt_gap'] = rng.choice([200, 50])
+        pol['preempt_funcs'] = preempt.WORKER_FUNCS
+    else:
+        pol['preempt_gap'] = 0
+    return pol
+
+
+def gen_opts(rng: random.Random, tier: str, n: int) -> dict:
+    if tier == 'thorough' and n <= 3:
+        lvl = rng.choice([1, 1, 2, 2, 3, 4])
+    else:
+        lvl = rng.choice([1, 1, 2])
+    return {'optimization_level': lvl,
+            'max_synthesis_size': rng.choice([2, 3, 3]),
+            'seed': rng.randrange(10 ** 6),
+            'num_workers': rng.randint(1, 4)}
+
+
+def compile_scn(rng, inp, model, opts) -> dict:
+    return {
+        'topo': {'kind': 'compile', 'workers': opts['num_workers']},
+        'clients': [{'script': [{'op': 'bq_compile', 'input': inp,
+                                 'model': model, 'opts': opts}]}],
+        'policy': compile_policy(rng),
+        'faults': [],
+        'max_steps': 5_000_000,
+    }
+
+
+def gen_c01(rng: random.Random, tier: str) -> dict:
+    from dst.workload import compile_inputs as CI
+    big = tier == 'thorough'
+    n = rng.choice([1, 2, 2, 3, 3, 4] + ([5, 6] if big else []))
+    depth = rng.randint(2, 10 if n <= 3 else 7)
+    inp = CI.gen_circuit(rng, n, depth)
+    model = CI.gen_model(rng, n)
+    opts = gen_opts(rng, tier, n)
+    if any(len(g['q']) >= 3 and g['g'] != 'barrier' for g in inp['gates']):
+        # documented: compile() refuses gates wider than the block size
+        opts['max_synthesis_size'] = 3
+    return compile_scn(rng, inp, model, opts)
+
+
+def gen_c02(rng: random.Random, tier: str) -> dict:
+    from dst.workload import compile_inputs as CI
+    r = rng.random()
+    if r < 0.6:
+        return gen_c01(rng, tier)
+    inp = CI.gen_target(rng, ['unitary', 'unitary', 'state', 'system'],
+                        qutrits=True)
+    model = CI.gen_model(rng, inp['n'], inp['d'], max_extra=0)
+    return compile_scn(rng, inp, model, gen_opts(rng, tier, inp['n']))
+
+
+def gen_c03(rng: random.Random, tier: str) -> dict:
+    from dst.workload import compile_inputs as CI
+    if rng.random() < 0.25:
+        d = 2
+        n = rng.randint(1, 2)
+        items = []
+        for k in range(rng.randint(2, 3)):
+            it = CI.gen_target(rng, ['unitary'], qutrits=False, max_n=n)
+            it['n'] = n
+            it['gen'] = 'haar'      # pairwise distinguishable
+            items.append(it)
+        inp = {'kind': 'list', 'items': items, 'n': n, 'd': d}
+        model = CI.gen_model(rng, n, d, max_extra=0)
+    else:
+        inp = CI.gen_target(rng, ['unitary', 'unitary', 'state', 'system'],
+                            qutrits=True)
+        model = CI.gen_model(rng, inp['n'], inp['d'], max_extra=0)
+    return compile_scn(rng, inp, model, gen_opts(rng, tier, inp['n']))
+
+
 GENS = {
+    'C01': gen_c01,
+    'C02': gen_c02,
+    'C03': gen_c03,
     'C07': gen_c07,
     'C11': gen_c11,
     'C14': gen_c14,
